@@ -690,7 +690,10 @@ func (g *Gen) genFilter() Op {
 	typed := g.R.Chance(0.8)
 	if typed {
 		idx := -1
-		if base != nil {
+		if g.P.Name == "C14" && g.R.Chance(0.6) {
+			idx = g.R.Intn(len(FilterTuples)) // uniform over all arities
+		}
+		if idx < 0 && base != nil {
 			idx = g.findTuple(FilterTuples, 0, func(t []int) bool { return base.Has(t...) })
 		}
 		if idx < 0 {
